@@ -194,7 +194,7 @@ def _floats(x):
     return []
 
 
-_TOL = {"rt": 1e-9, "big": {}}     # set per case by compare_case (forward-error bound of the solved system)
+_TOL = {"rt": 1e-9, "big": {}, "q": None}     # set per case by compare_case (forward-error bound of the solved system)
 
 
 def same(x, y, stats, order=0):
@@ -220,7 +220,16 @@ def same(x, y, stats, order=0):
             stats["numerically_singular_not_compared"] = stats.get("numerically_singular_not_compared", 0) + 1
             return True
         big = _TOL["big"].get(order, 0.0) if isinstance(_TOL["big"], dict) else _TOL["big"]
-        if _TOL["rt"] > 1e-9 and math.isfinite(fa) and math.isfinite(fb) and abs(fa - fb) <= _TOL["rt"] * max(abs(fa), abs(fb), big):
+        q = _TOL.get("q")
+        if q is not None:
+            # a QUERY result of sensitivity order `order` at derivative order m is a sum of coefficient components times basis
+            # derivatives of orders m .. m + order, each bounded by (2k / h_min)^j: its rounding noise is epsilon times THAT sum,
+            # whatever its own size (a spline on knots 1e-6 apart carries terms of size 1e12 |c| in its second derivative)
+            m, dx, D = q
+            bigs = _TOL["big"] if isinstance(_TOL["big"], dict) else {0: _TOL["big"]}
+            big = max(big, sum(bigs.get(order - j, 0.0) * (D ** (m + j)) * (max(1.0, dx) ** j) for j in range(order + 1)))
+        rel = (_TOL["rt"] if _TOL["rt"] > 1e-9 else 0.0) + 4e-13
+        if math.isfinite(fa) and math.isfinite(fb) and abs(fa - fb) <= rel * max(abs(fa), abs(fb), big):
             stats["within_cond_bound"] = stats.get("within_cond_bound", 0) + 1
             return True
         return False
@@ -617,14 +626,33 @@ def compare_case(ctx, ci, c, a, b, stats):
                                 _TOL["big"][o] = max(_TOL["big"].get(o, 0.0), abs(b2f(v[1])))
         except Exception:
             _TOL["rt"], _TOL["big"] = 1e-9, {}
+    if not c.get("solve") and c.get("c"):
+        # pre-set coefficients: their sizes, per sensitivity order
+        for e in c["c"]:
+            comps = [(0, e)] if isinstance(e, (int, float)) else [(0, e[0])] + [(1, v) for v in e[2]] + (
+                [(2, v) for row in e[3] for v in row] if len(e) > 3 else [])
+            for o, v in comps:
+                if isinstance(v, (int, float)) and math.isfinite(v):
+                    _TOL["big"][o] = max(_TOL["big"].get(o, 0.0), abs(v))
+    gaps = [b_ - a_ for a_, b_ in zip(c["t"], c["t"][1:]) if b_ > a_ and math.isfinite(b_ - a_)]
+    D = 2.0 * c["k"] / min(gaps) if gaps else 1.0
     for pos, (x, y) in enumerate(zip(da, db)):
         ctx.evaluations += 1
         if x[0] == "csolve" and x[1][0] == "ok":
             ctx.evaluations += len(x[1][1]) - 1
             ctx.nontriv((ci, pos))
+        _TOL["q"] = None
         if x[0] == "q":
             stats["class:" + x[1][0]] = stats.get("class:" + x[1][0], 0) + 1
             ctx.nontriv((ci, pos))
+            try:
+                qq = c["queries"][pos - (2 if c.get("solve") else 1)]
+                m_ = qq[2] if qq[0] in ("f", "d", "d2") else 0
+                X = qq[1] if qq[0] in ("d", "d2") else (qq[1][1] if qq[0] == "n" and qq[1][0] != "f64" else None)
+                dxs = [abs(v) for v in X[2]] + ([abs(v) for row in X[3] for v in row] if X is not None and len(X) > 3 else []) if X is not None else []
+                _TOL["q"] = (m_, max(dxs + [0.0]), D)
+            except Exception:
+                _TOL["q"] = None
         if not same(x, y, stats):
             if x[0] == "q":
                 qi = pos - (2 if c.get("solve") else 1)
@@ -643,6 +671,7 @@ def compare_case(ctx, ci, c, a, b, stats):
                  "implementation": show(x)[:2000], "model": show(y)[:2000],
                  "harness_cmd": "echo '%s' | harness/target/release/rlharness spline" % hline(enc_case(c))})
             return
+    _TOL["q"] = None
     # polynomial reproduction on the implementation side (oracle independent of the model):
     # reported as a note, the verdict is the model/implementation comparison
     if c.get("poly") and c["variant"] == "solve" and "illposed" not in c["label"]:
